@@ -34,26 +34,36 @@ Theorem shared_label_closes_nest lbl n rest :
 Proof. exact (labelled_do_closes lbl n rest). Qed.
 Print Assumptions shared_label_closes_nest.
 
-(* fixed-form continuation: whatever the continuation marks, with comment and blank lines in between, the statement readers get the
-   statement (up to blanks) ... *)
-Theorem fixed_continuation_preserves_statement lead0 b0 ps stop :
-  Forall (fun p => wf_fpiece p = true) ps ->
-  (match stop with l :: _ => fixed_cont l = false /\ blank_line l = false /\ fixed_comment l = false | [] => True end) ->
-  squeeze (joined_fixed (repeat 32%N lead0 ++ b0) (render_conts ps ++ stop)) = squeeze (b0 ++ concat (map fbody ps)).
-Proof. exact (fixed_continuation_layout_irrelevant lead0 b0 ps stop). Qed.
+(* fixed-form continuation: whatever the continuation marks, with comment lines (flagged in column 1 or `!` after blanks) and blank
+   lines in between, and whatever trailing comments the continued lines carry, the statement readers get the statement (up to blanks) ... *)
+Theorem fixed_continuation_preserves_statement lead0 b0 t0 ps stop :
+  6 <= lead0 -> find_char BANG b0 = None -> tail_ok t0 = true ->
+  Forall (fun p => wf_fpiece p = true) ps -> stop_ok stop ->
+  squeeze (statement_fixed (blanks lead0 ++ b0 ++ t0) (render_conts ps ++ stop)) = squeeze (b0 ++ concat (map fbody ps)).
+Proof. exact (fixed_continuation_layout_irrelevant lead0 b0 t0 ps stop). Qed.
 Print Assumptions fixed_continuation_preserves_statement.
 
 (* ... and it is the text its free-form twin yields: the same statement cut at the same places, any number of pieces *)
-Theorem fixed_free_same_statements p rest lead0 fps stop :
+Theorem fixed_free_same_statements p rest lead0 t0 fps stop :
   Forall (fun q => wf_piece q = true) (p :: rest) -> amp_lead p = false ->
-  Forall (fun q => wf_fpiece q = true) fps -> map fbody fps = map body rest ->
-  (match stop with l :: _ => fixed_cont l = false /\ blank_line l = false /\ fixed_comment l = false | [] => True end) ->
+  6 <= lead0 -> tail_ok t0 = true ->
+  Forall (fun q => wf_fpiece q = true) fps -> map fbody fps = map body rest -> stop_ok stop ->
   match render (p :: rest) with
-  | cur :: more => squeeze (joined cur more) = squeeze (joined_fixed (repeat 32%N lead0 ++ body p) (render_conts fps ++ stop))
+  | cur :: more => squeeze (joined cur more) = squeeze (statement_fixed (blanks lead0 ++ body p ++ t0) (render_conts fps ++ stop))
   | [] => False
   end.
-Proof. exact (fixed_free_same_statement p rest lead0 fps stop). Qed.
+Proof. exact (fixed_free_same_statement p rest lead0 t0 fps stop). Qed.
 Print Assumptions fixed_free_same_statements.
+
+(* non-vacuity: `      integer a, ! first` / `C note` / `     &  b, ! second` / `   ! indented` / `     1  c ! last` / `      end` *)
+Example fixed_continuation_nonvacuous :
+  let bang := [33; 32; 120]%N in
+  let ps := [FP 38%N [32; 32; 98; 44; 32]%N bang [[32; 32; 32; 33; 32; 105]%N]; FP 49%N [32; 32; 99; 32]%N bang []] in
+  Forall (fun p => wf_fpiece p = true) ps /\ stop_ok [[32; 32; 32; 32; 32; 32; 101; 110; 100]%N] /\
+  squeeze (statement_fixed (blanks 6 ++ [105; 110; 116; 32; 97; 44; 32]%N ++ bang) ([[67; 32; 110]%N] ++ render_conts ps ++ [[32; 32; 32; 32; 32; 32; 101; 110; 100]%N]))
+  = [105; 110; 116; 97; 44; 98; 44; 99]%N.
+Proof. vm_compute. repeat split; repeat constructor. Qed.
+Print Assumptions fixed_continuation_nonvacuous.
 
 (* the direct tests agree with the patterns compiled by the code (regenerated): exhaustive over all strings of
    length <= 6 on {blank a Z 1 !}, all strings of length <= 2 on the comment alphabet, and the keyword probes
